@@ -89,6 +89,11 @@ def build(run):
                 ops.append(OpqDep(opname, deps, shape, fi, fid, dom=tri))
             try:
                 o = t.build(ops)
+            except TypeError as ex:
+                if "not supported between instances" in str(ex):
+                    # arguments with and without a part number cannot be ordered: UFL cannot even construct this expression, so there is nothing to check
+                    return proved("unconstructible", sample=f"{name}: the constructor refuses ({ex})")
+                return undecided(f"{name}: template could not be built: {ex}")
             except Exception as ex:  # noqa: BLE001
                 return undecided(f"{name}: template could not be built: {ex}")
             if not isinstance(o, t.cls):
